@@ -1190,6 +1190,20 @@ func main() {
 		}
 	}
 
+	if *mode == "valuetypes" {
+		runValueTypes(rng, *count, *maxOps, rep)
+		rep.Rule = fmt.Sprintf("%d random histories of <= %d Set/Delete operations over 6 keys for each of the value types float64 (with +0, -0, NaN), []int, any, func: "+
+			"Len/Get/iteration after every operation and SymmetricDiff against a random earlier version, reference = a plain Go map; implementation only", *count, *maxOps)
+		rep.Distinct = rep.Evaluations
+		if *jsonOut != "" {
+			if err := rep.Write(*jsonOut); err != nil {
+				fmt.Fprintln(os.Stderr, err)
+				os.Exit(2)
+			}
+		}
+		fmt.Printf("pmaptrace valuetypes: %d operations, %d violations\n", rep.Evaluations, len(rep.Violations))
+		return
+	}
 	if *mode == "exhaustive" || *mode == "branching" {
 		branching := *mode == "branching"
 		alpha := alphabet(*nkeys, *nvals)
